@@ -125,7 +125,7 @@ RequestList::choked() {
 
   m_last_choke = torrent::this_thread::cached_time();
 
-  if (m_queues.queue_empty(bucket_queued) && m_queues.queue_empty(bucket_unordered))
+  if (m_queues.queue_empty(bucket_queued) && m_queues.queue_empty(bucket_unordered) && m_queues.queue_empty(bucket_stalled))
     return;
 
   m_queues.move_all_to(bucket_queued, bucket_choked);
